@@ -61,6 +61,9 @@ Frags == <<
   Frag("S", <<"local", "q", ";">>, <<"q", "=", "0", ";">>, "local outside a function"),
   Frag("E", <<"a", "?", "b", "?", "c", ":", "d", ":", "e">>, <<"a", "?", "b", ":", "e">>, "nested ternary"),
   Frag("E", <<"a", "?", "b", ":", "c", "?", "d", ":", "e">>, <<"a", "?", "b", ":", "c">>, "nested ternary"),
+  Frag("E", <<"a", "?", "(", "b", ")", ":", "c", "?", "d", ":", "e">>, <<"a", "?", "(", "b", ")", ":", "c">>, "nested ternary"),
+  Frag("E", <<"a", "?", "-", "b", ":", "c", "?", "d", ":", "e">>, <<"a", "?", "-", "b", ":", "c">>, "nested ternary"),
+  Frag("E", <<"a", "?", "[", "b", "]", ":", "c", "?", "d", ":", "e">>, <<"a", "?", "[", "b", "]", ":", "c">>, "nested ternary"),
   Frag("S", <<"x", "=", "1", "#", "2", ";">>, <<"x", "=", "1", "+", "2", ";">>, "illegal character"),
   Frag("S", <<"x", "=", "1", "@", ";">>, <<"x", "=", "1", ";">>, "illegal character"),
   Frag("S", <<"x", "=", "1", ";", "^">>, <<"x", "=", "1", ";">>, "illegal character"),
